@@ -256,7 +256,7 @@ type c15Case struct {
 	Incidence int      `json:"incidence"` // key i carries label j iff bit (3*i+j) is set
 	Args      []string `json:"args"`
 	FailAt    int      `json:"fail_at"`
-	Desc      bool     `json:"desc,omitempty"` // map ranges iterate in descending key order
+	Desc      bool     `json:"desc,omitempty"`  // map ranges iterate in descending key order
 	Split     bool     `json:"split,omitempty"` // after the failed call the retry is made label by label, one call each
 }
 
